@@ -260,7 +260,24 @@ def gen_c10(rng: random.Random, stalls: bool = False) -> dict:
             events.append({"at": {"on": "state", "match": {"new": "CONNECTED"}, "delay": rng.random() * N * K}, "do": "fault", "kind": "stall", "d": K * pick(rng, [0.5, 2.0, 5.0, 9.0]), "phase": "pre"})
     if not stalls and rng.random() < 0.1:
         events.append({"at": {"on": "state", "match": {"new": "CONNECTED"}, "delay": K * (1.0 + rng.random() * (N - 1))}, "do": "fault", "kind": "write_raises", "always": True, "exc": pick(rng, ["OSError", "RuntimeError"])})
+    # TCP segmentation: in a third of the runs device writes are cut into small chunks read in successive turns (same
+    # instant), so reads end inside frames; several messages per device write make chunks of [frames][head of next]
+    cuts: dict = {"mode": "coalesce"}
+    if not stalls and rng.random() < 0.35:  # (with stalls a frame must be complete in the read that follows the stall)
+        cuts = {"mode": "sizes", "sizes": [pick(rng, [1, 2, 3, 4, 5, 7]) for _ in range(rng.randint(1, 3))]}
+        for ev in events:
+            if ev.get("do") == "dev" and rng.random() < 0.5:
+                ev["act"]["msgs"] = ev["act"]["msgs"] + [pick(rng, MSGS) for _ in range(rng.randint(1, 3))]
     actors = [{"id": "a0", "at": {"t": 0.0}, "steps": [{"do": "connect", "login": rng.random() < 0.5}]}]
+    if device.get("transport") != "noise" and not stalls and rng.random() < 0.08:
+        # a dead device that no longer drains its socket while the application keeps sending: the transport goes above
+        # its high-water mark and pauses the protocol - keepalive pings and the pong deadline go on regardless
+        t_dead = K * (1.0 + rng.random() * 3)
+        events[:] = [e for e in events if not (e.get("do") == "dev" and e["at"].get("delay", 0) > t_dead)]
+        events.append({"at": {"on": "state", "match": {"new": "CONNECTED"}, "delay": t_dead}, "do": "fault", "kind": "tx_block", "d": 3000.0})
+        big = [{"do": "send", "msgs": [["CameraImageRequest", {"single": True}], ["VoiceAssistantAudio", {"data": {"gen": [40000, 7]}}]]}, {"do": "sleep", "d": K * 0.4}]
+        actors.append({"id": "flood", "at": {"on": "state", "match": {"new": "CONNECTED"}, "delay": t_dead + 0.01}, "steps": big * 12})
+        end = max(end, t_dead + 14 * K + 5.0)
     if rng.random() < 0.25:
         # the application keeps writing fire-and-forget commands: outgoing traffic is no sign of life of the peer
         x = K * pick(rng, [0.3, 0.5, 0.9, 1.7])
@@ -273,7 +290,7 @@ def gen_c10(rng: random.Random, stalls: bool = False) -> dict:
         "knobs": gen_knobs(rng),
         "client": client,
         "device": device,
-        "net": {"cuts": {"mode": "coalesce"}, "c2d_latency": 0.001, "d2c_latency": [0.0]},
+        "net": {"cuts": cuts, "c2d_latency": 0.001, "d2c_latency": [0.0]},
         "actors": actors,
         "events": events,
         "end": end,
